@@ -442,49 +442,70 @@ func ruleProvSign(c *Ctx, r *Rep) {
 		sumArgNil = true
 	}
 	r.Check(sumArgNil && instrDominates(write, sum), "digest-sum|"+fk, c.Pos(sum.Pos()), "digest = Sum(nil) after the Write", sprintf("Sum(%s)", sum.Call.Args[0]))
-	// signing calls
-	for _, ci := range callsIn(fn) {
-		name := calleeFullName(ci)
-		var keyArg, digestArg ssa.Value
-		keyType := ""
-		switch name {
-		case "crypto/ecdsa.SignASN1":
-			keyArg, digestArg, keyType = ci.Common().Args[1], ci.Common().Args[2], "*crypto/ecdsa.PrivateKey"
-		case "crypto/rsa.SignPKCS1v15":
-			keyArg, digestArg, keyType = ci.Common().Args[1], ci.Common().Args[3], "*crypto/rsa.PrivateKey"
-			r.Check(fromTable(ci.Common().Args[2], "hashid"), "rsa-hash-id|"+fk, c.Pos(ci.Pos()), "the hash identifier given to RSA comes from the same table", ci.Common().Args[2].String())
-		default:
-			continue
-		}
-		short := name[strings.LastIndex(name, ".")+1:]
-		expectSet(r, "signing-key|"+short, c.Pos(ci.Pos()), pv.Origins(keyArg), "the ISSUER context's private key, type-asserted", recv+".Issuer.PrivateKey.("+keyType+")")
-		r.Check(digestArg == ssa.Value(sum), "signing-digest|"+short, c.Pos(ci.Pos()), "signs the digest computed above", digestArg.String())
-		// comma-ok guard
-		ex, _ := keyArg.(*ssa.Extract)
-		guardOK := false
-		if ex != nil {
-			if ta, ok := ex.Tuple.(*ssa.TypeAssert); ok && ta.CommaOk {
-				for _, g := range guardsOf(ci.Block()) {
-					if gx, ok := g.Cond.(*ssa.Extract); ok && gx.Tuple == ssa.Value(ta) && gx.Index == 1 && g.Truth {
-						// the !ok edge returns a non-nil error
-						other := g.If.Block().Succs[1]
-						errOK := true
-						for b := range regionBlocks(other) {
-							if ret, isRet := b.Instrs[len(b.Instrs)-1].(*ssa.Return); isRet {
-								if !returnsNonNilError(ret) {
-									errOK = false
-								}
-							} else {
-								errOK = false
-							}
-						}
-						guardOK = errOK
+	// signing calls: in the signing function or in a helper it calls (arguments mapped back through the call)
+	pv.inFrames(fn, 1, func(f *ssa.Function) bool { return f.Pkg != fn.Pkg || f == tab }, func(fr frame) {
+		toRoot := func(v ssa.Value) ssa.Value {
+			if prm, ok := v.(*ssa.Parameter); ok && fr.site != nil {
+				for i, q := range fr.fn.Params {
+					if q == prm && i < len(fr.site.Common().Args) {
+						return fr.site.Common().Args[i]
 					}
 				}
 			}
+			return v
 		}
-		r.Check(guardOK, "key-type-guard|"+short, c.Pos(ci.Pos()), "comma-ok assertion; a key of the wrong type returns an error (run fails)", sprintf("%v", guardOK))
-	}
+		for _, ci := range callsIn(fr.fn) {
+			name := calleeFullName(ci)
+			var keyArg, digestArg ssa.Value
+			keyType := ""
+			switch name {
+			case "crypto/ecdsa.SignASN1":
+				keyArg, digestArg, keyType = ci.Common().Args[1], ci.Common().Args[2], "*crypto/ecdsa.PrivateKey"
+			case "crypto/rsa.SignPKCS1v15":
+				keyArg, digestArg, keyType = ci.Common().Args[1], ci.Common().Args[3], "*crypto/rsa.PrivateKey"
+				r.Check(fromTable(toRoot(ci.Common().Args[2]), "hashid"), "rsa-hash-id|"+fk, c.Pos(ci.Pos()), "the hash identifier given to RSA comes from the same table", ci.Common().Args[2].String())
+			default:
+				continue
+			}
+			short := name[strings.LastIndex(name, ".")+1:]
+			expectSet(r, "signing-key|"+short, c.Pos(ci.Pos()), pv.here(keyArg), "the ISSUER context's private key, type-asserted", recv+".Issuer.PrivateKey.("+keyType+")")
+			r.Check(toRoot(digestArg) == ssa.Value(sum), "signing-digest|"+short, c.Pos(ci.Pos()), "signs the digest computed above", digestArg.String())
+			// comma-ok guard
+			ex, _ := keyArg.(*ssa.Extract)
+			guardOK := false
+			if ex != nil {
+				if ta, ok := ex.Tuple.(*ssa.TypeAssert); ok && ta.CommaOk {
+					for _, g := range guardsOf(ci.Block()) {
+						if gx, ok := g.Cond.(*ssa.Extract); ok && gx.Tuple == ssa.Value(ta) && gx.Index == 1 && g.Truth {
+							// the !ok edge returns a non-nil error
+							other := g.If.Block().Succs[1]
+							errOK := true
+							for b := range regionBlocks(other) {
+								if ret, isRet := b.Instrs[len(b.Instrs)-1].(*ssa.Return); isRet {
+									if !returnsNonNilError(ret) {
+										errOK = false
+									}
+								} else {
+									errOK = false
+								}
+							}
+							guardOK = errOK
+						}
+					}
+				}
+			}
+			// a helper's error must be returned by the signing function
+			if guardOK && fr.site != nil {
+				ev, _ := errValueOf(fr.site)
+				if ev == nil {
+					guardOK = false
+				} else if okp, _ := propagates(c, ev, fr.site); !okp {
+					guardOK = false
+				}
+			}
+			r.Check(guardOK, "key-type-guard|"+short, c.Pos(ci.Pos()), "comma-ok assertion; a key of the wrong type returns an error (run fails)", sprintf("%v", guardOK))
+		}
+	})
 	// TBS issuer store precedes the marshal; no TBS store after it
 	issuerStored := false
 	for _, fs := range storesIntoType(c, fn, "cert.TbsCertificate") {
@@ -764,17 +785,14 @@ func ruleProvKeyID(c *Ctx, r *Rep) {
 			r.Check(write.Call.Value == sum.Call.Value && ssa.Value(newHash) == write.Call.Value && instrDominates(write, sum) && sumNil, "keyid-flow|"+cs.name+"|"+fk, c.Pos(sum.Pos()), "one hash: New, Write, Sum(nil)", "ok")
 			// the digest reaches the marshalled value unmodified
 			reaches := false
-			for _, ci := range callsIn(fn) {
-				if calleeFullName(ci) == "encoding/asn1.Marshal" {
-					marg := unwrapIface(ci.Common().Args[0])
-					if marg == d.result {
-						reaches = true
-					}
-					mo := pv.Origins(ci.Common().Args[0])
-					so := pv.Origins(d.result)
-					if len(mo) == 1 && len(so) == 1 && (mo[0] == so[0] || strings.Contains(mo[0], "="+so[0])) {
-						reaches = true
-					}
+			for _, ms := range marshalSitesOf(c, fn) {
+				if ms.arg == d.result {
+					reaches = true
+				}
+				mo := pv.Origins(ms.arg)
+				so := pv.Origins(d.result)
+				if len(mo) == 1 && len(so) == 1 && (mo[0] == so[0] || strings.Contains(mo[0], "="+so[0])) {
+					reaches = true
 				}
 			}
 			r.Check(reaches, "keyid-value|"+cs.name+"|"+fk, c.FnPos(fn), "the marshalled identifier is the digest itself", sprintf("%v", reaches))
